@@ -311,11 +311,38 @@ func newFs(be *memstore.Backend, L uint32, o obsT) (cafs.Fs, error) {
 		cafs.CacheSize(cl*int(L)), cafs.Prefetch(o.Prefetch), cafs.ReaderConcurrentChunkWrites(o.RCW))
 }
 
-func observe(st *stored, o obsT) (resT, error) {
-	var res resT
+// fsPool hands out the cafs.Fs of an observation: always created AFTER the corruption; a fresh one per
+// observation, or (shared mode) one per option set, reused by the later observations of the same case
+type fsPool struct {
+	shared bool
+	m      map[string]cafs.Fs
+}
+
+func (p *fsPool) get(st *stored, o obsT) (cafs.Fs, error) {
+	k := fmt.Sprintf("%d/%d/%d", o.Prefetch, o.CacheL, o.RCW)
+	if p.shared {
+		if fs, ok := p.m[k]; ok {
+			return fs, nil
+		}
+	}
 	fs, err := newFs(st.be, st.obj.Leaf, o)
 	if err != nil {
-		return res, fmt.Errorf("harness: cafs.New: %v", err)
+		return nil, fmt.Errorf("harness: cafs.New: %v", err)
+	}
+	if p.shared {
+		if p.m == nil {
+			p.m = map[string]cafs.Fs{}
+		}
+		p.m[k] = fs
+	}
+	return fs, nil
+}
+
+func observe(st *stored, o obsT, pool *fsPool) (resT, error) {
+	var res resT
+	fs, err := pool.get(st, o)
+	if err != nil {
+		return res, err
 	}
 	kb, err := hex.DecodeString(st.root)
 	if err != nil {
@@ -535,12 +562,13 @@ func judge(st *stored, d damageT, o obsT, r resT) error {
 // the corruption is applied once, observations do not modify the store)
 
 type caseT struct {
-	Obj   objT   `json:"obj"`
-	Other objT   `json:"other"`
-	Rel   string `json:"other_relation"` // random | sibling (same bytes, one byte of leaf SibLeaf changed)
-	SibAt int    `json:"sibling_byte,omitempty"`
-	Corr  corrT  `json:"corruption"`
-	Obs   []obsT `json:"observations"`
+	Obj      objT   `json:"obj"`
+	Other    objT   `json:"other"`
+	Rel      string `json:"other_relation"` // random | sibling (same bytes, one byte at SibAt changed)
+	SibAt    int    `json:"sibling_byte,omitempty"`
+	Corr     corrT  `json:"corruption"`
+	SharedFs bool   `json:"shared_fs,omitempty"` // observations with equal options reuse one (post-corruption) Fs
+	Obs      []obsT `json:"observations"`
 }
 
 func (c caseT) otherBytes() []byte {
@@ -559,12 +587,8 @@ func (c caseT) otherObj() objT {
 	return c.Other
 }
 
-// putObject stores content with a writer-side cafs and returns the hex root key
-func putObject(be *memstore.Backend, L uint32, content []byte) (string, error) {
-	fs, err := cafs.New(cafs.LeafSize(L), cafs.Backend(be.View("writer")), cafs.Logger(hx.Nop), cafs.CacheSize(4*int(L)))
-	if err != nil {
-		return "", fmt.Errorf("harness: cafs.New: %v", err)
-	}
+// putObject stores content with the writer-side cafs and returns the hex root key
+func putObject(fs cafs.Fs, content []byte) (string, error) {
 	res, err := fs.Put(context.Background(), bytes.NewReader(content))
 	if err != nil {
 		return "", fmt.Errorf("harness: Put: %v", err)
@@ -578,13 +602,18 @@ func putObject(be *memstore.Backend, L uint32, content []byte) (string, error) {
 // setup stores both objects in a fresh backend
 func setup(c caseT) (*stored, *stored, error) {
 	be := memstore.NewBackend("blob")
-	root, err := putObject(be, c.Obj.Leaf, c.Obj.bytes())
+	L := c.Obj.Leaf
+	wfs, err := cafs.New(cafs.LeafSize(L), cafs.Backend(be.View("writer")), cafs.Logger(hx.Nop), cafs.CacheSize(4*int(L)))
+	if err != nil {
+		return nil, nil, fmt.Errorf("harness: cafs.New: %v", err)
+	}
+	root, err := putObject(wfs, c.Obj.bytes())
 	if err != nil {
 		return nil, nil, err
 	}
 	oo := c.otherObj()
 	ob := c.otherBytes()
-	oroot, err := putObject(be, c.Obj.Leaf, ob)
+	oroot, err := putObject(wfs, ob)
 	if err != nil {
 		return nil, nil, err
 	}
@@ -670,12 +699,25 @@ func excludedObs(c corrT, style string) string {
 	return ""
 }
 
+// onClone re-points a stored object at a copy of the blob store
+func (st *stored) onClone(be *memstore.Backend) *stored {
+	cp := *st
+	cp.be = be
+	return &cp
+}
+
 // runCase executes a cafs-level case and returns the first violation
 func runCase(c caseT, record bool) error {
 	st, ost, err := setup(c)
 	if err != nil {
 		return err
 	}
+	return runPrepared(c, record, st, ost)
+}
+
+// runPrepared corrupts the (private) store of st and runs the observations
+func runPrepared(c caseT, record bool, st, ost *stored) error {
+	pool := &fsPool{shared: c.SharedFs}
 	d, err := apply(c.Corr, st, ost)
 	if err != nil {
 		return err
@@ -688,7 +730,7 @@ func runCase(c caseT, record bool) error {
 		var res resT
 		gerr, hung, panicked := hx.Guard(30*time.Second, func() error {
 			var e error
-			res, e = observe(st, o)
+			res, e = observe(st, o, pool)
 			return e
 		})
 		switch {
@@ -712,6 +754,9 @@ func runCase(c caseT, record bool) error {
 			stats.Count("kind_"+c.Corr.kindClass(), 1)
 			stats.Count("style_"+o.Style, 1)
 			stats.Count("target_"+posClass(c.Obj, c.Corr.Target), 1)
+			if c.SharedFs && i > 0 {
+				stats.Count("obs_on_reused_fs", 1)
+			}
 			switch {
 			case !d.Effective:
 				stats.Count("arm_control_or_identical", 1)
@@ -850,7 +895,9 @@ func drawObs(t *rapid.T, obj objT, c corrT) obsT {
 	L := int(obj.Leaf)
 	size := obj.size()
 	o := obsT{Style: rapid.SampledFrom([]string{"read", "read", "readall", "readat", "readat", "readat", "writeto", "writetoat", "writetoat"}).Draw(t, "style")}
-	o.Prefetch = rapid.SampledFrom([]int{0, 0, 1, 1, 2}).Draw(t, "prefetch")
+	if o.Style == "readat" { // prefetching only exists on the ReadAt path (and every prefetching reader costs a goroutine)
+		o.Prefetch = rapid.SampledFrom([]int{0, 0, 1, 1, 2}).Draw(t, "prefetch")
+	}
 	o.CacheL = rapid.IntRange(1, 8).Draw(t, "cache")
 	o.RCW = rapid.IntRange(1, 4).Draw(t, "rcw")
 	lo, hi := 0, size
@@ -920,6 +967,7 @@ func drawCase(t *rapid.T) caseT {
 		}
 	}
 	c.Corr = drawCorr(t, c.Obj, c.otherObj(), true)
+	c.SharedFs = rapid.Bool().Draw(t, "sharedfs")
 	n := rapid.IntRange(1, 4).Draw(t, "nobs")
 	for i := 0; i < n; i++ {
 		c.Obs = append(c.Obs, drawObs(t, c.Obj, c.Corr))
@@ -961,13 +1009,15 @@ func enumShapes(full bool) []shapeT {
 }
 
 // enumCorruptions lists every single-blob corruption of obj
-func enumCorruptions(obj, other objT) []corrT {
+func enumCorruptions(obj, other objT, allBits bool) []corrT {
 	var out []corrT
 	for target := -1; target < obj.N; target++ {
 		bl := obj.blobLen(target)
 		for pos := 0; pos < bl; pos++ {
 			for bit := 0; bit < 8; bit++ {
-				out = append(out, corrT{Kind: "flip", Target: target, Pos: pos, Bit: bit})
+				if allBits || bit == pos%8 {
+					out = append(out, corrT{Kind: "flip", Target: target, Pos: pos, Bit: bit})
+				}
 			}
 		}
 		for n := 0; n < bl; n++ {
@@ -995,7 +1045,7 @@ func enumCorruptions(obj, other objT) []corrT {
 }
 
 // enumObs lists every read style for a corruption of the given target
-func enumObs(obj objT, c corrT) []obsT {
+func enumObs(obj objT, c corrT, bothPrefetch bool) []obsT {
 	L := int(obj.Leaf)
 	size := obj.size()
 	var out []obsT
@@ -1018,15 +1068,23 @@ func enumObs(obj objT, c corrT) []obsT {
 		shape    string
 		off, len int
 	}
-	rgs := []rg{{"whole", 0, size}, {"leaf", lo, hi - lo}, {"inside", hi - 1, 1}, {"after", hi, L}}
+	var rgs []rg
 	if lo > 0 {
-		rgs = append(rgs, rg{"into", lo - 1, 2}, rg{"before", 0, lo})
+		rgs = append(rgs, rg{"before", 0, lo}, rg{"into", lo - 1, 2})
 	}
+	rgs = append(rgs, rg{"after", hi, L}, rg{"inside", hi - 1, 1}, rg{"leaf", lo, hi - lo})
 	if hi < size {
 		rgs = append(rgs, rg{"outof", hi - 1, 2})
 	}
-	for _, r := range rgs {
-		for _, pf := range []int{0, 1} {
+	rgs = append(rgs, rg{"whole", 0, size})
+	// each option set (prefetch off / on) has its own Fs in the enumeration; within one Fs the ranges missing
+	// the damage come first (they warm the leaf cache with healthy leaves only)
+	pfs := []int{0} // the default
+	if bothPrefetch {
+		pfs = []int{0, 1}
+	}
+	for _, pf := range pfs {
+		for _, r := range rgs {
 			o := base
 			o.Style, o.Shape, o.Off, o.Len, o.Prefetch = "readat", r.shape, int64(r.off), r.len, pf
 			out = append(out, o)
@@ -1035,7 +1093,8 @@ func enumObs(obj objT, c corrT) []obsT {
 	return out
 }
 
-func enumerate(t *testing.T, shapes []shapeT, shard, shards int) (corruptions, triples int) {
+func enumerate(t *testing.T, full bool, shard, shards int) (corruptions, triples int) {
+	shapes := enumShapes(full)
 	idx := 0
 	for si, sh := range shapes {
 		obj := objT{Leaf: sh.L, N: sh.N, Last: sh.Last, Seed: 0xC03 + uint64(si), Kind: sh.Kind, Period: int(sh.L)}
@@ -1046,7 +1105,7 @@ func enumerate(t *testing.T, shapes []shapeT, shard, shards int) (corruptions, t
 				base.Other = obj
 				base.SibAt = obj.size() - 1 // the sibling differs in the last leaf only: all other leaves are shared blobs
 			}
-			corrs := enumCorruptions(obj, base.otherObj())
+			corrs := enumCorruptions(obj, base.otherObj(), full) // quick tier: one bit of every byte (bit = position mod 8)
 			if rel == "sibling" {
 				// the sibling only adds new replacement sources: keep the replacement corruptions
 				var keep []corrT
@@ -1058,6 +1117,10 @@ func enumerate(t *testing.T, shapes []shapeT, shard, shards int) (corruptions, t
 				corrs = keep
 			}
 			hx.Journal(map[string]interface{}{"enumerating": base})
+			st0, ost0, err := setup(base)
+			if err != nil {
+				t.Fatalf("%v", err)
+			}
 			for _, c := range corrs {
 				idx++
 				if idx%shards != shard {
@@ -1065,8 +1128,10 @@ func enumerate(t *testing.T, shapes []shapeT, shard, shards int) (corruptions, t
 				}
 				cs := base
 				cs.Corr = c
-				cs.Obs = enumObs(obj, c)
-				if err := runCase(cs, true); err != nil {
+				cs.SharedFs = true // cafs.New costs ~2 ms (it clears a 1 MiB buffer and builds loggers): one Fs per option set and corruption
+				cs.Obs = enumObs(obj, c, full)
+				be := st0.be.Clone()
+				if err := runPrepared(cs, true, st0.onClone(be), ost0.onClone(be)); err != nil {
 					b, _ := json.Marshal(cs)
 					hx.Journal(cs)
 					stats.Violation(err.Error())
@@ -1081,19 +1146,20 @@ func enumerate(t *testing.T, shapes []shapeT, shard, shards int) (corruptions, t
 }
 
 // TestEnumCafs enumerates EVERY single-blob corruption of small objects against every read style.
-// Quick tier: one 2-leaf shape. Thorough tier: all shapes, split over VERIF_SHARDS processes.
+// Quick tier: one 2-leaf shape, one bit of every byte, default prefetch setting only (not flagged exhaustive).
+// Thorough tier: all shapes, all bits, prefetch off and on, split over VERIF_SHARDS processes.
 func TestEnumCafs(t *testing.T) {
 	full := hx.Thorough()
 	shard, shards := hx.EnvInt("VERIF_SHARD", 0), hx.EnvInt("VERIF_SHARDS", 1)
 	if shards < 1 || shard < 0 || shard >= shards {
 		shard, shards = 0, 1
 	}
-	nc, nt := enumerate(t, enumShapes(full), shard, shards)
+	nc, nt := enumerate(t, full, shard, shards)
 	// control: the healthy store reads back through every style
 	for _, sh := range enumShapes(full) {
 		obj := objT{Leaf: sh.L, N: sh.N, Last: sh.Last, Seed: 77, Kind: sh.Kind, Period: int(sh.L)}
 		cs := caseT{Obj: obj, Other: objT{Leaf: sh.L, N: 1, Last: 5, Seed: 78}, Rel: "random", Corr: corrT{Kind: "none", Target: 0}}
-		cs.Obs = enumObs(obj, cs.Corr)
+		cs.Obs = enumObs(obj, cs.Corr, true)
 		if err := runCase(cs, true); err != nil {
 			t.Fatalf("control arm: %v", err)
 		}
